@@ -302,8 +302,8 @@ def rand_uplink(rng, sess):
         if kind == "cur": return n, 0xa7, [num, bval(rng)]
         if kind == "conf": return n, 0xa9, [rng.choice([0, 0, 1, 255]), rng.choice([0, 1]), rng.choice([0, 1, 7])]
         if kind == "multi":
-            size = rng.choice([8, 8, 16, 24, 64, 128]); base = rng.choice([0, 0, 8, (num // 8) * 8])
-            if base + size > 255: base = 0
+            size = rng.choice([8, 8, 16, 24, 64, 128]); base = rng.choice([0, 0, 8, (num // 8) * 8, 256 - size])     # 256 - size: the range ends with the last detector
+            if base + size > 256: base = 0
             return n, 0xa2, [base, size] + [rng.choice([0, 0xff, rng.randrange(256)]) for _ in range(size // 8)]
         # address report; now and then the previous report of this segment again with the orientation bits flipped
         # (same decoders, other direction: derived train state has to follow although the address set is unchanged)
@@ -380,7 +380,9 @@ def rand_uplink(rng, sess):
     if ty in (0x8e, 0x8a, 0x8c, 0x8d): ty = 0x82
     d = [bval(rng) for _ in range(rng.choice([1, 2, 3, 5, 9]))]
     if ty in StateTypes: return rand_uplink(rng, sess)
-    if ty == 0x86: d = [rng.choice([0, 1, 2, 3, 4, 5, 6, 0x10, 0x20, 0x30]), rng.choice([0, 1, 2, 3, 4, 5, 6])] + d[:1]   # SYS_ERROR with in-range codes
+    if ty == 0x86:
+        d = [rng.choice([0, 1, 2, 3, 4, 5, 6, 0x10, 0x20, 0x30]), rng.choice([0, 1, 2, 3, 4, 5, 6])] + d[:1]   # SYS_ERROR with in-range codes
+        if rng.random() < 0.4: d = [rng.choice([0, 1, 2, 3, 5, 6, 0x11, 0x12, 0x20, 0x21, 0x30])]                # codes that carry no parameter: one byte is the whole message
     if ty == 0x89: d = [bval(rng) for _ in range(9)]          # well-formed lengths of the start-up dialogue types
     if ty == 0x88: d = d[:1]
     if ty == 0x90 and len(d) < 2: d = d + [bval(rng)]
